@@ -96,6 +96,10 @@ func removeHopByHopHeaders(resp *http.Response) {
 func updateStoredHeaders(storedResp, resp *http.Response) {
 	omitted := hopByHopHeaders(resp.Header)
 	omitted["Content-Length"] = struct{}{}
+	// The freshened response's age restarts with the 304 (its request and
+	// response times replace the stored ones): the Age it arrived with once
+	// belongs to the old times. A 304 that carries an Age brings its own.
+	storedResp.Header.Del("Age")
 	for hdr, val := range resp.Header {
 		if _, ok := omitted[hdr]; ok {
 			continue
